@@ -13,6 +13,12 @@ Inductive aobs := AObsOk (files : list (bytes * rle)) | AObsFileTooBig | AObsTot
 
 Inductive hobs := HStatus (code : N) | HBody (path content : bytes) (lines : N).
 
+(** what opening a trace source did *)
+Inductive sobs :=
+| SServed (m : fsmap)      (* the tree that is served *)
+| SRejected                (* OpenTraceSource returned an error: nothing is served *)
+| SCrashed.                (* the process died (e.g. unbounded recursion in the walk) *)
+
 Inductive case :=
 | CPath (p : bytes) (obs_clean : bytes) (obs_valid obs_valid_clean : bool)
 | CRead (m : fsmap) (p : bytes) (start end_ : Z) (obs : tobs)
@@ -21,7 +27,7 @@ Inductive case :=
 | CSearch (m : fsmap) (needle filter_ : bytes) (obs : tobs)
 | CWrite (m : list (bytes * rle)) (obs : list (bool * bytes * rle)) (same_bytes : bool)
 | CArchive (file_cap total_cap : N) (es : list (entry rle)) (obs : aobs)
-| CSource (rows : list (bytes * list (bytes * bytes))) (obs : option fsmap).   (* None: OpenTraceSource failed *)
+| CSource (rows : list (bytes * list (bytes * bytes))) (obs : sobs).
 
 (* ---------------------------------------------------------------- model side *)
 
@@ -117,7 +123,7 @@ Definition check_case (c : case) : bool :=
       list_eqb (fun e o => Bool.eqb (fst (fst e)) (fst (fst o)) && beqb (snd (fst e)) (snd (fst o)) && rle_eqb (snd e) (snd o))
                (map (fun e => (e_reg e, e_name e, e_data e)) (write_archive m)) obs
   | CArchive fc tc es obs => aobs_eqb (project_archive (read_archive rle_len fc tc es 0 [])) obs
-  | CSource rows obs => match obs with Some o => files_eqb beqb (sort_files (open_trace_source rows)) (sort_files o) | None => false end
+  | CSource rows obs => match obs with SServed o => files_eqb beqb (sort_files (open_trace_source rows)) (sort_files o) | _ => false end
   end.
 
 (* ---------------------------------------------------------------- the property, on the observed behaviour *)
@@ -213,10 +219,16 @@ Definition holds_on (c : case) : bool :=
       end
   | CSource rows obs =>
       (* every served key is a valid, non-escaping path and its content was recorded in some row *)
+      (* an entry is servable when its joined key is a valid path; a hostile row or name must be
+         ignored, never take the honest rows down with it, let alone the process *)
+      let servable := flat_map (fun row => flat_map (fun pd => let k := path_join2 (fst row) (fst pd) in
+                                                               if valid_path k then [(k, snd pd)] else []) (snd row)) rows in
       match obs with
-      | None => true        (* the whole source was rejected *)
-      | Some o =>
+      | SCrashed => false
+      | SRejected => match servable with [] => true | _ => false end
+      | SServed o =>
           forallb (fun kd => negb (escapes (fst kd)) &&
-                             existsb (fun row => existsb (fun pd => beqb (snd pd) (snd kd)) (snd row)) rows) o
+                             existsb (fun row => existsb (fun pd => beqb (snd pd) (snd kd)) (snd row)) rows) o &&
+          forallb (fun kd => match lookup o (fst kd) with Some d => beqb d (snd kd) | None => false end) servable
       end
   end.
